@@ -122,3 +122,38 @@ Theorem C05_c_fill_then_trace : forall u (s1 s2 : list point),
        fuel i j (Z.of_nat j - cw_shift l1 l2 w0 (Z.of_nat i - 1))%Z)
   = Some (Mfun u s1 s2 i j).
 Proof. exact c_fill_then_trace. Qed.
+
+(* (6) ... and with the REAL fill: the kernel dtw_warping_paths_ndim regenerated whole from dd_dtw.c (Gen_cwpsk.v), run
+   without a bound on any buffer, leaves an array on which the C traceback loop traces, from the slot of any finite cell,
+   a path that costs exactly the value of that cell.  (CWpsSpec.v for the kernel, CTraceSim.v for the loop.) *)
+From DV Require Import Engines CDistSpec CLang CWpsFinal.
+From DVGen Require Import Gen_cwps Gen_cwpsk.
+
+Theorem C05_c_kernel_then_trace :
+  forall (window p m mld : Z) (psi : (nat * nat) * (nat * nat)), (0 <= window)%Z ->
+  let usq := c_to_u (cs_of window p m mld psi SqEuclid) in
+  forall (s1 s2 : list point) (d : nat),
+  (forall q, In q s1 -> List.length q = d) -> (forall q, In q s2 -> List.length q = d) ->
+  (1 <= List.length s1)%nat -> (1 <= List.length s2)%nat ->
+  (psi_1b usq <= List.length s1)%nat -> (psi_2b usq <= List.length s2)%nat ->
+  forall ce0 shiftf ced1 ced2 (wps0 : list cost) psi_neg idist zp1e zp2e,
+  let l1 := Z.of_nat (List.length s1) in let l2 := Z.of_nat (List.length s2) in
+  let W := cw_width l1 l2 window in
+  Z.of_nat (List.length wps0) = ((l1 + 1) * W)%Z -> (idist =? 1)%Z = false ->
+  exists wps',
+    c_dtw_warping_paths_ndim ce0 shiftf ced1 ced2 wps0 (List.concat s1) l1 (List.concat s2) l2 false true psi_neg (Z.of_nat d)
+      ((l1 + 1) * W)%Z (c_parts_ldiff l1 l2) (c_parts_ldiffr l1 l2 (c_parts_ldiff l1 l2))
+      (c_parts_ldiffc l1 l2 (c_parts_ldiff l1 l2)) (c_parts_window l1 l2 window) W ((l1 + 1) * W)%Z
+      (c_parts_ri1 l1 (c_parts_overlap_left l1 (c_parts_ldiffr l1 l2 (c_parts_ldiff l1 l2)) (c_parts_window l1 l2 window))
+                      (c_parts_overlap_right l1 (c_parts_ldiffr l1 l2 (c_parts_ldiff l1 l2)) (c_parts_window l1 l2 window)))
+      (c_parts_ri2 l1 (c_parts_overlap_left l1 (c_parts_ldiffr l1 l2 (c_parts_ldiff l1 l2)) (c_parts_window l1 l2 window)))
+      (c_parts_ri3 l1 (c_parts_overlap_left l1 (c_parts_ldiffr l1 l2 (c_parts_ldiff l1 l2)) (c_parts_window l1 l2 window))
+                      (c_parts_overlap_right l1 (c_parts_ldiffr l1 l2 (c_parts_ldiff l1 l2)) (c_parts_window l1 l2 window)))
+      (adj_max_step usq) Inf (Fin (adj_penalty usq)) idist false (Z.of_nat (psi_1b usq)) zp1e (Z.of_nat (psi_2b usq)) zp2e false
+    = (RPlain (Fin (-1)), wps', true) /\
+    forall fuel i j, (i + j <= fuel)%nat -> (Z.of_nat i <= l1)%Z -> (Z.of_nat j <= l2)%Z -> Mfun usq s1 s2 i j <> Inf ->
+      wpath_cost usq s1 s2 i j
+        (c_trace l1 l2 window (adj_penalty usq) (fun row s => aget wps' (row * W + s)) fuel i j
+                 (Z.of_nat j - cw_shift l1 l2 window (Z.of_nat i - 1))%Z)
+      = Some (Mfun usq s1 s2 i j).
+Proof. intros window p m mld psi Hw usq s1 s2 d Hd1 Hd2 H1 H2 Hp1 Hp2. exact (c_kernel_then_trace window p m mld psi Hw s1 s2 d Hd1 Hd2 H1 H2 Hp1 Hp2). Qed.
